@@ -21,6 +21,7 @@ claimed={
  "C12":("H.vars: (*Mocker).methodData → AddVar sequences from SSA on 9 signature shapes × {same, other} destination with symbolic user-chosen names, package names and local type names: identifiers valid, pairwise distinct, distinct from every import qualifier, from mock/callInfo and from the type names the method uses; five genuine defect classes are excluded by class predicates and re-established by their recorded witnesses (known_findings.json)","§4 C12"),
  "C13":("H.vars (a user-chosen name that collides with nothing is kept verbatim, for all names) + H.exported: the real Exported closure (fetched from templateFuncs after executing template.init from SSA) equals an independent reference rule for every ASCII name up to the bound","§4 C13"),
  "C15":("-rm half: H.run shows for all flag values and all fault combinations that os.Remove(-out) is the first environment action and a non-not-exist error aborts before loading; the left-in-place fixed-point half is not claimed yet","§4 C15"),
+ "C16":("partial: H.mock (for every formatter string the bytes written are goimports(T)/T/gofmt(T) with gofmt for every other value, formatters as uninterpreted functions, errors returned and nothing written) + H.header (the template constant starts with the marker line before the package clause) + H.run (a successful run writes exactly Mock's bytes; counterexamples replayed by regenerating over noop-formatted output). Not claimed: gofmt idempotence / goimports' declaration preservation (properties of go/format and x/tools)","§4 C16"),
  "C17":("H.run/H.main/H.mock: run(), main() and Mocker.Mock executed from SSA with every environment call allowed to fail; event trace checked against the all-or-nothing rules; counterexamples replayed on the real CLI with real faults","§4 C17"),
  "C18":("H.run: the set of file-system mutating events on every path of run() is {Remove(out), MkdirAll(dir(out)), WriteFile(out)} with exactly those targets, for all flags and fault combinations","§4 C18"),
  "C20":("H.pairname (parseInterfaceName for every string) + H.mock (k symbolic arguments over a model source package: one MockData per argument, in order, named as requested, wrapping exactly the go/types objects of the looked-up interface) + H.run (arguments reach Mock unchanged)","§4 C20"),
